@@ -388,7 +388,8 @@ def _flatten_chunk(rec, n, it, trial, summary):
     if not sidx[0].eq(j0 + X.var(tv)): return rec
     # partition lemma: tcount + j0 == min(j0 + step, hi)
     want = lm.canon_minmax('min', [j0 + step, hi])
-    if not (tcount + j0).eq(want):
+    want_len = lm.canon_minmax('min', [step, hi - j0])           # the same partition written as a block length: min(c, K - j0)
+    if not (tcount + j0).eq(want) and not tcount.eq(want_len):
         return (binders, sidx, Mismatch(f"chunk store of length {tcount!r} at {j0!r} does not tile [0,{hi!r}) in steps of {step!r}"))
     J = fresh("J")
     # substitute t := J - j0 and require independence from the chunk index
